@@ -1442,3 +1442,65 @@ Proof.
   apply (fold_pair_fst cfg (list sexp) coarse (fun c a => apply_coarse sb a c)
            (fun st a => snd st ++ [amb_view sb (length views) (fst st)])).
 Qed.
+
+(** * Two variants of the code that break the frame (witnesses, by computation) *)
+(** (a) cleaning an owner up by removing its nodes from the arena that is *current* on the
+    thread instead of the owner's own arena: dropping request 1 while request 2's arena is
+    selected deletes request 2's item at the colliding key, although it lives under a nested
+    owner of request 2 *)
+Definition drop_req_ambient_arena (r : rid) (c : cfg) : cfg :=
+  let w := c_w c in
+  let q := get_req r w in
+  let nodes := flat_map o_nodes (q_owners q) in
+  match cur_arena true c with
+  | Some a => mkCfg (set_store (fold_left (fun s h => store_del (a, h) s) nodes (w_store w)) w) (c_amb c)
+  | None => c
+  end.
+
+Definition nested_progs : list (list instr * nat) :=
+  [([IWith (1, 0) [IChild [IAct (AAlloc 1 11)]]], 0);
+   ([IWith (2, 0) [IChild [IAct (AAlloc 1 22)]]], 0)].
+Definition nested_sched : list sev := [SStart 1; SPoll 1 0; SStart 2; SPoll 2 0].
+
+Lemma nested_scoped : all_scoped nested_progs.
+Proof.
+  intros [|[|k]] pg E; cbn in E; [inversion E; subst; reflexivity | inversion E; subst; reflexivity
+                                  | destruct k; discriminate].
+Qed.
+
+Theorem ambient_arena_drop_breaks_frame :
+  let c := run_sched true nested_sched (init_world nested_progs) in
+  store_get (2, (0, 0)) (w_store (c_w c)) = Some 22%Z /\
+  store_get (2, (0, 0)) (w_store (c_w (drop_req_ambient_arena 1 c))) = None /\
+  store_get (2, (0, 0)) (w_store (c_w (drop_req true 1 c))) = Some 22%Z.
+Proof. vm_compute. repeat split. Qed.
+
+(** (b) a Sandboxed task that holds its arena weakly and re-selects it only while it is alive:
+    a plain spawned task of request 1 that outlives request 1's owner then reads request 2's
+    item through its own handle; as coded (strong reference, always re-selected) it reads
+    nothing *)
+Definition poll_task_weak (r : rid) (t : nat) (c : cfg) : cfg :=
+  match nth_error (q_tasks (get_req r (c_w c))) t with
+  | None => c
+  | Some tk =>
+      let c1 := match t_sb tk with
+                | Some (Some a) =>
+                    if q_dropped (get_req a (c_w c)) then c
+                    else with_amb c (mkAmb (a_owner (c_amb c)) (a_obs (c_amb c)) (Some a))
+                | _ => c
+                end in
+      let (c2, rest) := exec_list true r (t_prog tk) c1 in
+      upd_req r (upd_tasks (set_nth t (mkTask (t_sb tk) rest))) c2
+  end.
+
+Definition late_progs : list (list instr * nat) :=
+  [([IWith (1, 0) [IAct (AAlloc 1 11); ISpawn WBare [IAwait 0; IAct (AProbe 9 8 (Some 1))]]; IDropRoot], 1);
+   ([IWith (2, 0) [IAct (AAlloc 1 22)]], 0)].
+(** request 1 finishes (root dropped), request 2 is polled, then request 1's future completes *)
+Definition late_sched : list sev := [SStart 1; SPoll 1 0; SStart 2; SPoll 2 0; SFire 1 0].
+
+Theorem weak_sandbox_leaks :
+  let c := run_sched true late_sched (init_world late_progs) in
+  q_log (get_req 1 (c_w (poll_task_weak 1 1 c))) = [(9, 8, 2, (-1)%Z, (-1)%Z, 22%Z)] /\
+  q_log (get_req 1 (c_w (poll_task true 1 1 c))) = [(9, 8, 2, (-1)%Z, (-1)%Z, (-1)%Z)].
+Proof. vm_compute. split; reflexivity. Qed.
